@@ -46,3 +46,63 @@ func VerifCapture(conn *Conn, f func()) []string {
 
 // VerifDispatchInternal runs only the internal handler set on line.
 func VerifDispatchInternal(conn *Conn, line *Line) { conn.intHandlers.dispatch(conn, line) }
+
+// VerifHS wraps an hSet so that a harness can drive add/remove and look at
+// the links. Handlers are identified by small integers.
+type VerifHS struct {
+	hs    *hSet
+	nodes []*hNode
+}
+
+type verifHandler int
+
+func (verifHandler) Handle(*Conn, *Line) {}
+
+func VerifNewHSet() *VerifHS { return &VerifHS{hs: handlerSet()} }
+
+// Add registers handler id under ev and returns the index of its Remover.
+func (v *VerifHS) Add(ev string, id int) int {
+	r := v.hs.add(ev, verifHandler(id))
+	v.nodes = append(v.nodes, r.(*hNode))
+	return len(v.nodes) - 1
+}
+
+// Remove uses the k-th Remover.
+func (v *VerifHS) Remove(k int) { v.nodes[k].Remove() }
+
+func (v *VerifHS) index(hn *hNode) int {
+	for i, n := range v.nodes {
+		if n == hn {
+			return i
+		}
+	}
+	return -1
+}
+
+// Get is getHandlers(ev) as Remover indexes.
+func (v *VerifHS) Get(ev string) []int {
+	var out []int
+	for _, hn := range v.hs.getHandlers(ev) {
+		out = append(out, v.index(hn))
+	}
+	return out
+}
+
+// Links returns, for every name in the map, the forward walk from start and
+// the backward walk from end (as Remover indexes).
+func (v *VerifHS) Links() map[string][2][]int {
+	v.hs.RLock()
+	defer v.hs.RUnlock()
+	out := map[string][2][]int{}
+	for name, l := range v.hs.set {
+		var f, b []int
+		for hn := l.start; hn != nil; hn = hn.next {
+			f = append(f, v.index(hn))
+		}
+		for hn := l.end; hn != nil; hn = hn.prev {
+			b = append(b, v.index(hn))
+		}
+		out[name] = [2][]int{f, b}
+	}
+	return out
+}
